@@ -68,12 +68,18 @@ class Harness:
 
 
 REQUIRES = {}
+FEATURES = {}  # harness file -> cargo features of kira the file needs (// @features a,b)
+FEATURE_ARGS = []  # filled in main() from the selected files
+NATIVE_FEATURES = {}  # harness file -> additional features for native replays only (// @native_features wav)
+NATIVE_FEATURE_ARGS = []
 
 
 def parse_harness_file(path):
     """Returns (append_target, [Harness])"""
     target = None
     REQUIRES[path] = []
+    FEATURES[path] = []
+    NATIVE_FEATURES[path] = []
     out = []
     cur = None
     with open(path) as f:
@@ -87,6 +93,14 @@ def parse_harness_file(path):
         m = re.match(r"//\s*@requires\s+(\S+)", s)
         if m:
             REQUIRES[path].append(os.path.join(HARNESS_DIR, m.group(1)))
+            continue
+        m = re.match(r"//\s*@native_features\s+(\S+)", s)
+        if m:
+            NATIVE_FEATURES[path] += m.group(1).split(",")
+            continue
+        m = re.match(r"//\s*@features\s+(\S+)", s)
+        if m:
+            FEATURES[path] += m.group(1).split(",")
             continue
         m = re.match(r"//\s*@h\s+(.*)", s)
         if m:
@@ -284,7 +298,7 @@ def concrete_vals_of(src):
 # running one harness
 # --------------------------------------------------------------------------------------
 def harness_cmd(h, playback=False, failed=(), sliced=False):
-    cmd = list(KANI_BASE)
+    cmd = list(KANI_BASE) + FEATURE_ARGS
     # the counterexample of a failed assertion / panic does not need CBMC's pointer checks (they triple the
     # formula and made playback runs of heap-heavy harnesses run out of memory)
     pointer_failure = any(("pointer" in c["id"] or "dereference" in c["description"]) for c in failed)
@@ -390,7 +404,7 @@ def replay_natively(h, crate, logdir, failed, tier):
             for t2 in tests:
                 f.write((src_text if t2 is t else t2[3]) + "\n")
         plog = os.path.join(logdir, "%s.native.%s.log" % (t[2], profile))
-        cmd = ["cargo", "kani", "playback", "--no-default-features", "--lib", "-Z", "concrete-playback"]
+        cmd = ["cargo", "kani", "playback", "--no-default-features", "--lib", "-Z", "concrete-playback"] + (NATIVE_FEATURE_ARGS or FEATURE_ARGS)
         env = dict(ENV)
         # native replays run the REAL libm / kernels (stubs do not exist natively): harnesses switch
         # from their spy/uninterpreted oracle to a plain reference oracle under cfg(kv_native)
@@ -515,7 +529,13 @@ def main(argv):
         # ---- build once -------------------------------------------------------------------
         blog = os.path.join(logdir, "build.log")
         t0 = time.time()
-        rc, to = run(KANI_BASE + ["--only-codegen"], crate, blog, 1500)
+        feats = sorted({x for path, _ in files for x in FEATURES.get(path, [])})
+        if feats:
+            FEATURE_ARGS[:] = ["--features", ",".join(feats)]
+        nfeats = sorted(set(feats) | {x for path, _ in files for x in NATIVE_FEATURES.get(path, [])})
+        if nfeats:
+            NATIVE_FEATURE_ARGS[:] = ["--features", ",".join(nfeats)]
+        rc, to = run(KANI_BASE + FEATURE_ARGS + ["--only-codegen"], crate, blog, 1500)
         build_s = round(time.time() - t0, 1)
         if rc != 0:
             tail = "".join(open(blog, errors="replace").readlines()[-40:])
